@@ -28,7 +28,7 @@ def config_fn(rng):
     cfg = {"wrapper": rng.choice(["cvxpy", "cvxpy", "cvxpy", "mosek", "mosek", "mosek_absent"]), "solver": "CLARABEL", "verbose": rng.choice([0, 0, 1]),
            "mode": rng.choice(["dual", "primal"]),
            "dimred": rng.choice(["trace", "trace", "logdet1", "logdet2", "logdet3", "logdet4"]),
-           "tol_dr": rng.choice([1e-4, 1e-5, 1e-3, 1e-2]), "eig_reg": rng.choice([1e-3, 1e-5, 1e-2])}
+           "tol_dr": rng.choice([1e-4, 1e-5, 1e-3, 1e-2, 0.0, 0]), "eig_reg": rng.choice([1e-3, 1e-5, 1e-2])}
     return cfg
 
 
